@@ -122,7 +122,7 @@ func (i *Interp) errorString(fr *frame, e Iface) Value {
 	if e.t == nil {
 		return "<nil>"
 	}
-	m := i.prog.LookupMethod(e.t, nil, "Error")
+	m := i.findMethod(e.t, "Error")
 	if m == nil {
 		return "?"
 	}
@@ -140,13 +140,13 @@ func (i *Interp) fmtArg(fr *frame, a Value, verb byte) Value {
 	if verb == 'T' {
 		return i.typeString(itf.t)
 	}
-	if m := i.prog.LookupMethod(itf.t, nil, "Error"); m != nil && verb != 'd' {
+	if m := i.findMethod(itf.t, "Error"); m != nil && verb != 'd' {
 		if p, isPtr := itf.v.(*Value); isPtr && p == nil {
 			return "<nil>"
 		}
 		return i.call(fr, token.NoPos, m, []Value{itf.v})
 	}
-	if m := i.prog.LookupMethod(itf.t, nil, "String"); m != nil && verb != 'd' && m.Signature.Params().Len() == 0 {
+	if m := i.findMethod(itf.t, "String"); m != nil && verb != 'd' && m.Signature.Params().Len() == 0 {
 		if _, isRV := itf.v.(RValue); !isRV {
 			if p, isPtr := itf.v.(*Value); !(isPtr && p == nil) {
 				return i.call(fr, token.NoPos, m, []Value{itf.v})
@@ -517,7 +517,7 @@ func (i *Interp) sortSlice(fr *frame, s Slice, less Value, stable bool) {
 }
 
 func (i *Interp) unwrapErr(fr *frame, e Iface) (single Iface, multi []Iface, ok bool) {
-	if m := i.prog.LookupMethod(e.t, nil, "Unwrap"); m != nil && m.Signature.Params().Len() == 0 && m.Signature.Results().Len() == 1 {
+	if m := i.findMethod(e.t, "Unwrap"); m != nil && m.Signature.Params().Len() == 0 && m.Signature.Results().Len() == 1 {
 		res := i.call(fr, token.NoPos, m, []Value{e.v})
 		switch r := res.(type) {
 		case Iface:
@@ -545,7 +545,7 @@ func (i *Interp) errorsIs(fr *frame, err, target Iface) Value {
 					return true
 				}
 			}
-			if m := i.prog.LookupMethod(e.t, nil, "Is"); m != nil && m.Signature.Params().Len() == 1 {
+			if m := i.findMethod(e.t, "Is"); m != nil && m.Signature.Params().Len() == 1 {
 				if i.truth(i.call(fr, token.NoPos, m, []Value{e.v, target})) {
 					return true
 				}
@@ -601,7 +601,7 @@ func (i *Interp) errorsAs(fr *frame, err, target Iface) Value {
 				}
 				return true
 			}
-			if m := i.prog.LookupMethod(e.t, nil, "As"); m != nil && m.Signature.Params().Len() == 1 {
+			if m := i.findMethod(e.t, "As"); m != nil && m.Signature.Params().Len() == 1 {
 				if i.truth(i.call(fr, token.NoPos, m, []Value{e.v, target})) {
 					return true
 				}
@@ -628,3 +628,15 @@ func (i *Interp) errorsAs(fr *frame, err, target Iface) Value {
 }
 
 var _ = ssa.BuilderMode(0)
+
+// findMethod returns the exported method name of type t, or nil.
+func (i *Interp) findMethod(t types.Type, name string) *ssa.Function {
+	if t == nil {
+		return nil
+	}
+	sel := i.prog.MethodSets.MethodSet(t).Lookup(nil, name)
+	if sel == nil {
+		return nil
+	}
+	return i.prog.MethodValue(sel)
+}
